@@ -33,20 +33,20 @@ def _cfg(maxlen, ntok, extra=""):
     return "CONSTANTS MaxLen = %d\n NTok = %d\n%s" % (maxlen, ntok, extra)
 
 
-TRACE_CFG = "SPECIFICATION TSpec\n" + _cfg(0, 43)
+TRACE_CFG = "SPECIFICATION TSpec\n" + _cfg(0, 44)
 
 
 def run(ctx):
     maxlen = ctx.pick(2, 3)
     # (S) the reference model satisfies the contract on every input up to maxlen (+1 in thorough on 16 tokens)
     inv = "SPECIFICATION Spec\nINVARIANT ContractHolds\nINVARIANT QuoteUnquote\nINVARIANT RefQuoteAscii\n"
-    ctx.model_check("C14", cfg_text=inv + _cfg(maxlen, 43), label="S:C14 len<=%d" % maxlen)
+    ctx.model_check("C14", cfg_text=inv + _cfg(maxlen, 44), label="S:C14 len<=%d" % maxlen)
     if not ctx.quick:
         ctx.model_check("C14", cfg_text=inv + _cfg(4, 37), label="S:C14 len<=4")
     # (G) the same universe, rendered by TLC
     gl = ctx.pick(2, 3)
     rlen, rn = ctx.pick(("{4, 6, 9}", 400), ("{4, 5, 6, 8, 10, 12}", 20000))
-    data, _ = ctx.generate("Gen_C14", cfg_text="INIT GenInit\nNEXT GenNext\n" + _cfg(gl, 43, "RLen = %s\n RN = %d\n FocusIdx = {1, 2, 3, 14, 17, 18, 27, 29, 35, 36}\n FLen = %d\n" % (rlen, rn, ctx.pick(4, 5))))
+    data, _ = ctx.generate("Gen_C14", cfg_text="INIT GenInit\nNEXT GenNext\n" + _cfg(gl, 44, "RLen = %s\n RN = %d\n FocusIdx = {1, 2, 3, 14, 17, 18, 27, 29, 35, 36}\n FLen = %d\n" % (rlen, rn, ctx.pick(4, 5))))
     strings = sorted(set(tuple(x) for x in data["all"]) | set(tuple(x) for x in data["rnd"]) | set(tuple(x) for x in data["focus"]))
     ctx.extra["inputs_focus"] = len(data["focus"])
     ctx.extra["inputs_exhaustive"] = len(data["all"])
@@ -62,7 +62,7 @@ def run(ctx):
                          nontrivial=lambda c, e: (c["f"], tuple(c["s"])) if e["r"] != c["s"] else None)
     ctx.traces_validated = len(cases)
     ctx.exhaustive = True
-    ctx.rule = ("inputs: every token sequence of length <= %d over the 43-token alphabet of C14.tla (rendered by TLC), plus "
+    ctx.rule = ("inputs: every token sequence of length <= %d over the 44-token alphabet of C14.tla (rendered by TLC), plus "
                 "TLC RandomSubset sequences of lengths %s, and every sequence of length <= 4 (thorough 5) over the 10 tokens that can glue into escapes; each through the 4 safely_unquote_* kinds, safely_quote and "
                 "upper_quoted, each applied twice; non-trivial = output differs from input" % (gl, rlen))
     ctx.assumptions = ["percent-decoding and UTF-8 as defined in spec/Pct.tla, spec/Text.tla",
